@@ -45,6 +45,8 @@ pub struct Runner {
     pub annot: Vec<String>,
     pub out: Vec<String>,
     pub ops: Vec<(bool, Op)>,
+    /// `out.len()` when each recorded op started (lines of op i = out[out_idx[i]..out_idx[i+1]])
+    pub out_idx: Vec<usize>,
     pub dead: bool,
     /// which oracles to evaluate (crash continuations switch the history-only ones off)
     pub check_c06: bool,
@@ -59,9 +61,11 @@ pub fn calibrate_meta(scratch: &std::path::Path) -> usize {
     r.exec(&Op::Open(Pol::AlwaysFlush));
     r.exec(&Op::Create("q".into()));
     r.exec(&Op::Append { q: "q".into(), pos: None, payloads: vec![Payload::Gen { len: 5, seed: 1 }] });
-    let used = r.log.as_ref().unwrap().resource_usage().memory_used_bytes;
+    // a library that cannot even do this is reported by every campaign's own oracles; the
+    // calibration itself must not bring the harness down
+    let used = r.log.as_ref().map(|l| std::panic::catch_unwind(std::panic::AssertUnwindSafe(|| l.resource_usage().memory_used_bytes)).unwrap_or(0)).unwrap_or(0);
     r.cleanup();
-    used - 1 - 5
+    used.saturating_sub(1 + 5)
 }
 
 impl Runner {
@@ -75,6 +79,7 @@ impl Runner {
             annot: Vec::new(),
             out: Vec::new(),
             ops: Vec::new(),
+            out_idx: Vec::new(),
             dead: false,
             check_c06: true,
             prefix: "",
@@ -88,6 +93,7 @@ impl Runner {
     }
 
     pub fn record(&mut self, op: &Op, ex: &Exec) {
+        self.out_idx.push(self.out.len());
         self.ops.push((!self.prefix.is_empty(), op.clone()));
         self.annot.push(format!("{}{}", self.prefix, ex.annot));
         for l in &ex.out {
@@ -97,6 +103,10 @@ impl Runner {
 
     /// compare the real observable state with the specification (C05) and check the accounting (C16)
     fn check_state(&mut self, ctx: &str) {
+        let incons = self.real.log.as_ref().and_then(accessor_inconsistency);
+        if let Some(what) = incons {
+            self.violate("C05", format!("{}: {}", ctx, what));
+        }
         let Some(log) = self.real.log.as_ref() else { return };
         let obs = observe(log);
         let usage = log.resource_usage();
@@ -236,10 +246,12 @@ impl Runner {
                     self.violate("C05", format!("{}: returned {:?}, specification says {:?}", ctx, ex.outcome, expected));
                 }
                 // C04: positions handed out never regress within an incarnation
-                if let (Op::Append { q, .. }, Outcome::Appended(Some(last), _)) = (op, &ex.outcome) {
+                if let (Op::Append { q, payloads, .. }, Outcome::Appended(Some(last), _)) = (op, &ex.outcome) {
                     if let Some(sq) = before_spec.queues.get(q) {
-                        if *last < sq.next {
-                            self.violate("C04", format!("{}: append returned last_position {} although next position was {}", ctx, last, sq.next));
+                        // the FIRST position of the batch must be fresh, not only the last one
+                        let first = (*last + 1).saturating_sub(payloads.len().max(1) as u64);
+                        if first < sq.next {
+                            self.violate("C04", format!("{}: append of {} records returned last_position {} (first {}) although next position was {}", ctx, payloads.len(), last, first, sq.next));
                         }
                     }
                 }
@@ -267,6 +279,17 @@ impl Runner {
                     let touched = ex.events.iter().any(|e| !matches!(e, Event::ListDir));
                     if touched {
                         self.violate("C13", format!("{}: rejected/no-op call ({:?}) left a trace: {}", ctx, ex.outcome, effects_line(&ex.events)));
+                    }
+                    // ... reports no bytes, and leaves the observable state as it was
+                    if let Some(n) = reported {
+                        if n != 0 {
+                            self.violate("C13", format!("{}: rejected/no-op call reports wal_bytes_written={}", ctx, n));
+                        }
+                    }
+                    if let Some(o) = self.real.obs() {
+                        if logical(&o) != before_spec.logical() {
+                            self.violate("C13", format!("{}: rejected/no-op call changed the observable state: {}", ctx, diff_logical(&logical(&o), &before_spec.logical())));
+                        }
                     }
                     if self.spec != before_spec {
                         self.spec = before_spec.clone();
